@@ -97,23 +97,24 @@ func Verif_C13_CollectionScan() {
 		cursor = vsym.Bytes("cursor", 1+vsym.Choose("cursorlen", 2))
 	}
 	want := c13Expected(ms, cursor, reverse)
+	match := ""
 	var got [][]byte
 	done := false
 	for round := 0; round < len(ms)+2 && !done; round++ {
 		var page [][]byte
 		switch typ {
 		case 0:
-			r, err := db.HScan(key, cursor, count, "", reverse)
+			r, err := db.HScan(key, cursor, count, match, reverse)
 			vsym.Assert(err == nil, "HSCAN")
 			for _, kv := range r {
 				page = append(page, kv.Key)
 			}
 		case 1:
-			r, err := db.SScan(key, cursor, count, "", reverse)
+			r, err := db.SScan(key, cursor, count, match, reverse)
 			vsym.Assert(err == nil, "SSCAN")
 			page = r
 		default:
-			r, err := db.ZScan(key, cursor, count, "", reverse)
+			r, err := db.ZScan(key, cursor, count, match, reverse)
 			vsym.Assert(err == nil, "ZSCAN")
 			for _, sp := range r {
 				page = append(page, sp.Member)
@@ -203,5 +204,77 @@ func Verif_C13_KeyScan() {
 	}
 	vsym.Assert(done, "the iteration terminates")
 	c13Same(got, want, "key scan")
+	vsym.Reach("end")
+}
+
+
+// MATCH: with a glob the iteration returns exactly the matching subset (forward, from the empty cursor).
+// The real gobwas/glob matcher is compiled and executed; member names are ASCII here.
+func Verif_C13_CollectionScan_Match() {
+	v := vOpenDB()
+	defer v.done()
+	db := v.db
+	ts := int64(1700000000) * 1e9
+	key := []byte("t:k")
+	typ := vsym.Choose("type", 3)
+	n := 1 + vsym.Choose("nmembers", 3)
+	var ms [][]byte
+	for i := 0; i < n; i++ {
+		m := vsym.Bytes("member", 1)
+		vsym.Assume(m[0] < 0x80)
+		if i > 0 {
+			vsym.Assume(m[0] > ms[i-1][0])
+		}
+		ms = append(ms, m)
+		var err error
+		switch typ {
+		case 0:
+			_, err = db.HSet(ts, false, key, m, []byte("v"))
+		case 1:
+			_, err = db.SAdd(ts, key, m)
+		default:
+			_, err = db.ZAdd(ts, key, common.ScorePair{Score: 1, Member: m})
+		}
+		vsym.Assert(err == nil, "populate")
+	}
+	var want [][]byte
+	for _, m := range ms {
+		if m[0] >= 'a' && m[0] <= 'm' {
+			want = append(want, m)
+		}
+	}
+	count := 1 + vsym.Choose("count", 2)
+	var cursor []byte
+	var got [][]byte
+	done := false
+	for round := 0; round < n+2 && !done; round++ {
+		var page [][]byte
+		switch typ {
+		case 0:
+			r, err := db.HScan(key, cursor, count, "[a-m]*", false)
+			vsym.Assert(err == nil, "HSCAN")
+			for _, kv := range r {
+				page = append(page, kv.Key)
+			}
+		case 1:
+			r, err := db.SScan(key, cursor, count, "[a-m]*", false)
+			vsym.Assert(err == nil, "SSCAN")
+			page = r
+		default:
+			r, err := db.ZScan(key, cursor, count, "[a-m]*", false)
+			vsym.Assert(err == nil, "ZSCAN")
+			for _, sp := range r {
+				page = append(page, sp.Member)
+			}
+		}
+		got = append(got, page...)
+		if len(page) < count {
+			done = true // the command layer returns the empty cursor
+		} else {
+			cursor = page[len(page)-1]
+		}
+	}
+	vsym.Assert(done, "the iteration terminates")
+	c13Same(got, want, "scan with MATCH")
 	vsym.Reach("end")
 }
